@@ -504,6 +504,9 @@ def main(ctx):
         ctx.violation('proof-broken', {'theorems': bad, 'log': ctx.notes.get('build_log_tail', '')[-600:]},
                       'Props.v checks', 'does not check', ', '.join(bad), found_input=impl_bad > 0,
                       signature={'kind': 'proof-broken'})
+    if tier == 'thorough' and proof_ok and hasattr(ctx, 'coqchk'):
+        ctx.coqchk('C03/Props.v')
+    ctx.exhaustive = False
     return ctx.finish()
 
 
